@@ -239,7 +239,10 @@ type coClient struct {
 	err     string
 }
 
-func runClient(addr string, slow bool, wantLen int, c *coClient) {
+func runClient(addr string, slow bool, wantLen int, c *coClient) { runClientV(addr, slow, wantLen, c, "") }
+
+// runClientV: the same with a validator (If-None-Match) on the request
+func runClientV(addr string, slow bool, wantLen int, c *coClient, inm string) {
 	defer close(c.done)
 	conn, err := net.DialTimeout("tcp", addr, 5*time.Second)
 	if err != nil {
@@ -248,7 +251,11 @@ func runClient(addr string, slow bool, wantLen int, c *coClient) {
 	}
 	defer conn.Close()
 	conn.SetDeadline(time.Now().Add(40 * time.Second))
-	fmt.Fprintf(conn, "GET /c/r HTTP/1.1\r\nHost: client.test\r\n\r\n")
+	if inm != "" {
+		fmt.Fprintf(conn, "GET /c/r HTTP/1.1\r\nHost: client.test\r\nIf-None-Match: %s\r\n\r\n", inm)
+	} else {
+		fmt.Fprintf(conn, "GET /c/r HTTP/1.1\r\nHost: client.test\r\n\r\n")
+	}
 	br := bufio.NewReaderSize(conn, 4096)
 	resp, err := http.ReadResponse(br, &http.Request{Method: "GET"})
 	if err != nil {
@@ -400,7 +407,12 @@ func (c coordCase) Run() (sx.V, error) {
 			cl := &coClient{done: make(chan struct{}), resume: make(chan struct{}), progress: &clientBytes}
 			clients[a.I] = cl
 			atomic.AddInt64(&arrivals, 1)
-			go runClient(addr, a.Arg == "slow", g.bodyLen, cl)
+			if a.Arg == "cond" {
+				// a client that holds the first version: on a cold cache its fetch is unconditional all the same
+				go runClientV(addr, false, g.bodyLen, cl, `"e1"`)
+			} else {
+				go runClient(addr, a.Arg == "slow", g.bodyLen, cl)
+			}
 		case "answer":
 			g.mu.Lock()
 			var f *fetch
@@ -532,6 +544,8 @@ func coordPinned() []coordCase {
 	return []coordCase{
 		// three requests share one fill
 		{MaxAge: 60, Acts: []CoAct{act("arrive", 0, "fast"), act("arrive", 1, "fast"), act("arrive", 2, "fast"), act("answer", 0, "new")}},
+		// the request that fetches carries a validator that matches what it fetches; the one that waits carries none
+		{MaxAge: 60, Acts: []CoAct{act("arrive", 0, "cond"), act("arrive", 1, "fast"), act("arrive", 2, "fast"), act("answer", 0, "new")}},
 		// requests that arrive while the first one's body is half way in (cache file created, not yet published)
 		{MaxAge: 60, Acts: []CoAct{act("arrive", 0, "fast"), act("answer", 0, "slow"), act("arrive", 1, "fast"), act("arrive", 2, "fast"), act("answer", 0, "finish")}},
 		{MaxAge: 60, NoCL: true, Acts: []CoAct{act("arrive", 0, "fast"), act("answer", 0, "slow"), act("arrive", 1, "fast"), act("answer", 0, "finish")}},
